@@ -158,11 +158,11 @@ def accountBuiltins : List Row := [
 /-- **`census_builtins_accounted`.**  Every syntactic panic site of the value / built-in code that
 the extractor finds in /repo's current source has rows in `accountBuiltins`. -/
 theorem census_builtins_accounted :
-    covers Generated.panicCensusBuiltins accountBuiltins = true := by decide
+    coversF Generated.panicCensusBuiltins accountBuiltins = true := by decide
 
 /-- the tie bites: a new `.unwrap()` in a filter is not covered; removing sites is harmless -/
-example : covers (("filters.rs", "upper", "unwrap", "val.as_str()", 1) :: Generated.panicCensusBuiltins)
+example : coversF (("filters.rs", "upper", "unwrap", "val.as_str()", 1) :: Generated.panicCensusBuiltins)
     accountBuiltins = false
-    ∧ covers (Generated.panicCensusBuiltins.drop 2) accountBuiltins = true := by decide
+    ∧ coversF (Generated.panicCensusBuiltins.drop 2) accountBuiltins = true := by decide
 
 end Tera.PanicCensus
